@@ -71,6 +71,14 @@ let () =
         | None -> ln, "" in
       if tag = "B" then print_endline "||SKIP" else
       let cs = ns_of_string rest in
+      (* E <m> <m header numbers> <code points>: a text reached through an edit history; the model is a
+         function of the final text only *)
+      let cs = if tag = "E" then
+          (match cs with
+           | m :: r -> let rec drop n l = if n <= 0 then l else (match l with [] -> [] | _ :: t -> drop (n - 1) t) in
+                       drop (int_of_n m) r
+           | [] -> [])
+        else cs in
       let o =
         if tag = "L" then lex_latin1_file cs
         else if old then lex_all_old cs
